@@ -351,6 +351,81 @@ pub fn run_c09(ctx: &Ctx) -> i32 {
             }
         }
     });
+    // the bank module handed its messages directly (App::init_modules gives the module and the
+    // chain's own storage, with no transaction around the call, as stand-alone users of BankKeeper
+    // have it): a refused operation "fails and changes nothing" there too, and an accepted one
+    // conserves the coins
+    let direct: u64 = with_world(false, |world| {
+        use cw_multi_test::Module;
+        let mut n = 0u64;
+        let mut bases: Vec<(String, SnapStorage)> = vec![("ledger-genesis".into(), start.storage.clone())];
+        {
+            world.app.set_block(start.block.clone());
+            *world.app.storage_mut() = start.storage.clone();
+            let (r, p2) = (Addr::unchecked(&ad.rich), Addr::unchecked(&ad.poor));
+            world.app.init_modules(|router, _, storage| {
+                router.bank.init_balance(storage, &r, vec![cosmwasm_std::coin(2, "x"), cosmwasm_std::coin(1, "y")]).unwrap();
+                router.bank.init_balance(storage, &p2, vec![cosmwasm_std::coin(1, "x")]).unwrap();
+            });
+            bases.push(("rich: 2x 1y, poor: 1x".into(), world.app.storage().clone()));
+        }
+        let totals = |world: &World| -> std::collections::BTreeMap<String, u128> {
+            let st = world.observe_uncached();
+            let mut t = std::collections::BTreeMap::new();
+            for (who, m) in &st.bank {
+                if who != SUPPLY {
+                    for (d, a) in m {
+                        *t.entry(d.clone()).or_insert(0u128) += *a;
+                    }
+                }
+            }
+            t
+        };
+        for (bname, base) in &bases {
+            for from in &accounts[..3] {
+                for l in &lists {
+                    let coins = super::puppet::to_coins(l);
+                    let mut msgs: Vec<(String, cosmwasm_std::BankMsg)> = accounts.iter().map(|to| (format!("send to {}", to), cosmwasm_std::BankMsg::Send { to_address: to.clone(), amount: coins.clone() })).collect();
+                    msgs.push(("burn".into(), cosmwasm_std::BankMsg::Burn { amount: coins.clone() }));
+                    for (what, msg) in msgs {
+                        world.app.set_block(start.block.clone());
+                        *world.app.storage_mut() = base.clone();
+                        let before = totals(world);
+                        let block = world.app.block_info();
+                        let f2 = Addr::unchecked(from);
+                        let is_burn = what == "burn";
+                        let r = catch(|| world.app.init_modules(|router, api, storage| router.bank.execute(api, storage, router, &block, f2, msg)));
+                        n += 1;
+                        let cj = json!({"engine": "direct-bank", "base": bname, "sender": from, "operation": what, "coins": l});
+                        match r {
+                            Err(p) => ctx.violation("c09:Panic:direct-bank", json!({"case": cj, "panic": p})),
+                            Ok(Err(e)) => {
+                                if world.app.storage().data != base.data {
+                                    ctx.violation("c09:StateOnErr:direct-bank", json!({"case": cj, "error": format!("{:#}", e), "detail": "the refused bank operation changed the ledger", "totals_before": before, "totals_after": totals(world)}));
+                                }
+                            }
+                            Ok(Ok(_)) => {
+                                let after = totals(world);
+                                let mut want = before.clone();
+                                if is_burn {
+                                    for (d, a) in l {
+                                        let e = want.entry(d.clone()).or_insert(0u128);
+                                        *e = e.saturating_sub(*a);
+                                    }
+                                    want.retain(|_, a| *a > 0);
+                                }
+                                if after != want {
+                                    ctx.violation("c09:State:direct-bank", json!({"case": cj, "detail": "coins not conserved", "totals_before": before, "totals_after": after, "expected": want}));
+                                }
+                            }
+                        }
+                    }
+                }
+            }
+        }
+        n
+    });
+    extra["operations_handed_to_the_bank_module_directly"] = json!(direct);
     // engine self-check: second explorer (stateright) must see the same number of states
     if out.closed && out.caps.is_empty() && ctx.vio_count.load(std::sync::atomic::Ordering::Relaxed) == 0 {
         let sr = stateright_states(&start, &alphabet, Some(enabled.clone()), false);
